@@ -31,6 +31,11 @@ pub enum Choice {
     /// permanent variants: every later I/O call fails too
     ReadErrDead,
     SeekErrDead,
+    /// a seek that fails with ErrorKind::Interrupted (std does not retry seeks), once / twice in a row
+    SeekInterrupted,
+    SeekInterrupted2,
+    /// from this call on every read answers Ok(0) (the stream has shrunk)
+    EofDead,
 }
 pub const LEGAL: [Choice; 7] = [
     Choice::Short1,
@@ -45,7 +50,10 @@ pub const FAULTS: [Choice; 6] =
     [Choice::ReadErr, Choice::Eof, Choice::ShortThenEof, Choice::SeekErr, Choice::ReadErrDead, Choice::SeekErrDead];
 /// the C17 alphabet: the faults plus plain short reads (the property lists "short read" among the
 /// fault kinds; a correct reader absorbs them, so the answer must equal the fault-free one)
-pub const FAULTS_AND_SHORT: [Choice; 8] = [
+pub const FAULTS_AND_SHORT: [Choice; 11] = [
+    Choice::SeekInterrupted,
+    Choice::SeekInterrupted2,
+    Choice::EofDead,
     Choice::ReadErr,
     Choice::Eof,
     Choice::ShortThenEof,
@@ -61,7 +69,7 @@ impl Choice {
         FAULTS.contains(self)
     }
     pub fn from_name(s: &str) -> Option<Choice> {
-        LEGAL.iter().chain(FAULTS.iter()).copied().find(|c| format!("{:?}", c) == s)
+        LEGAL.iter().chain(FAULTS_AND_SHORT.iter()).copied().find(|c| format!("{:?}", c) == s)
     }
 }
 
@@ -85,6 +93,8 @@ pub struct EnvState {
     pub applied: u32,
     /// pending second step of a two-step choice (Interrupted2, ShortThenEof)
     pending: Option<Choice>,
+    /// every later read answers Ok(0)
+    pub eof_forever: bool,
 }
 
 pub struct EnvReader {
@@ -122,6 +132,15 @@ impl Read for EnvReader {
             let mut st = self.st.lock().unwrap();
             let pos = st.pos;
             let req = buf.len();
+            if st.call > 100_000 {
+                // a reader that is asked again and again without progress: the caller is spinning
+                panic!("runaway I/O loop: more than 100000 read/seek calls in one operation");
+            }
+            if st.eof_forever {
+                st.call += 1;
+                st.log.push(IoEvent::Read { pos, req, got: 0 });
+                return Ok(0);
+            }
             if st.dead {
                 st.call += 1;
                 st.log.push(IoEvent::ReadErr { pos, req });
@@ -170,14 +189,17 @@ impl Read for EnvReader {
                         st.log.push(IoEvent::ReadErr { pos, req });
                         return Err(Error::new(ErrorKind::Other, "injected: read error"));
                     }
-                    Choice::Eof => {
+                    Choice::Eof | Choice::EofDead => {
                         if full > 0 {
                             st.applied += 1;
+                            if c == Choice::EofDead {
+                                st.eof_forever = true;
+                            }
                             st.log.push(IoEvent::Read { pos, req, got: 0 });
                             return Ok(0);
                         }
                     }
-                    Choice::SeekErr | Choice::SeekErrDead => {}
+                    Choice::SeekErr | Choice::SeekErrDead | Choice::SeekInterrupted | Choice::SeekInterrupted2 => {}
                 }
             }
             buf[..n].copy_from_slice(&self.data[pos as usize..pos as usize + n]);
@@ -199,6 +221,14 @@ impl Seek for EnvReader {
             }
             let choice = scripted(&mut st);
             if let Some(c) = choice {
+                if c == Choice::SeekInterrupted || c == Choice::SeekInterrupted2 {
+                    st.applied += 1;
+                    if c == Choice::SeekInterrupted2 {
+                        st.pending = Some(Choice::SeekInterrupted);
+                    }
+                    st.log.push(IoEvent::SeekErr);
+                    return Err(Error::new(ErrorKind::Interrupted, "injected: interrupted seek"));
+                }
                 if c == Choice::SeekErr || c == Choice::SeekErrDead {
                     st.applied += 1;
                     if c == Choice::SeekErrDead {
@@ -708,8 +738,14 @@ fn emit_ehdr<S: Sink>(s: &mut S, e: &elf::file::FileHeader<AnyEndian>) {
 
 /// Open a stream over `img` with the given script for the open call itself.
 pub fn open_stream(bytes: &Arc<Vec<u8>>, script: &[(u32, Choice)]) -> (Result<Result<Stream, ()>, String>, Arc<Mutex<EnvState>>) {
+    open_stream_at(bytes, script, 0)
+}
+
+/// the reader handed to open_stream may stand anywhere (a caller may have sniffed the magic first)
+pub fn open_stream_at(bytes: &Arc<Vec<u8>>, script: &[(u32, Choice)], initial_pos: u64) -> (Result<Result<Stream, ()>, String>, Arc<Mutex<EnvState>>) {
     let (rd, st) = EnvReader::new(bytes.clone());
     st.lock().unwrap().script = script.to_vec();
+    st.lock().unwrap().pos = initial_pos;
     let r = subject(|| Stream::open_stream(rd).map_err(|_| ()));
     (r, st)
 }
@@ -786,6 +822,7 @@ pub fn fingerprint(f: &Stream, st: &Arc<Mutex<EnvState>>) -> u128 {
     a.u64(g.pos);
     b.u64(g.pos ^ 0xffff);
     a.u8(g.dead as u8);
+    a.u8(g.eof_forever as u8);
     ((a.get() as u128) << 64) | b.get() as u128
 }
 
